@@ -591,6 +591,56 @@ type multiObj struct{}
 
 func (m *multiObj) Find(a int64) (int64, error) { return a + 3, errors.New("method error") }
 `)
+	add("C_same_named_types", "read", "two distinct struct types that print alike (same name, different field order) are read and written by field name", `func C_same_named_types() {
+	d, s, p, q := newD()
+	dc := inject(d, p)
+	a, b2 := vnd.Int64("a"), vnd.Int64("b")
+	o1, price1, count1 := mkOrderA(a, b2)
+	o2, price2, count2 := mkOrderB(a, b2)
+	for round, o := range []interface{}{o1, o2, o1} {
+		dc.Add("O", o)
+		err, res := exec(dc, " O.Count = O.Count + 1\n O.In.Seen = 7\n return O.Price")
+		vnd.Assert(err == nil, "the rule succeeds")
+		got, ok := res["r"].(int64)
+		vnd.Assert(ok && got == a, "a field is read by its name, whatever other type printed alike was used before")
+		_ = round
+	}
+	vnd.Reach("executed")
+	vnd.Assert(*price1 == a && *price2 == a, "the read field stays untouched")
+	vnd.Assert(*count1 == b2+2 && *count2 == b2+1, "the assigned field is the named one")
+	untouched(d, s, p, q, "")
+}
+
+func mkOrderA(price, count int64) (interface{}, *int64, *int64) {
+	type In struct {
+		Tag  string
+		Seen int64
+	}
+	type Order struct {
+		Price int64
+		Count int64
+		In    *In
+		Spare *In
+	}
+	o := &Order{Price: price, Count: count, In: &In{}, Spare: &In{}}
+	return o, &o.Price, &o.Count
+}
+
+func mkOrderB(price, count int64) (interface{}, *int64, *int64) {
+	type In struct {
+		Seen int64
+		Tag  string
+	}
+	type Order struct {
+		Count int64
+		Spare *In
+		Price int64
+		In    *In
+	}
+	o := &Order{Price: price, Count: count, In: &In{}, Spare: &In{}}
+	return o, &o.Price, &o.Count
+}
+`)
 	// every numeric parameter type x every source class
 	for _, pt := range []string{"int", "int8", "int16", "int32", "int64", "uint", "uint8", "uint16", "uint32", "uint64", "float32", "float64"} {
 		for _, src := range sources[:3] {
